@@ -20,10 +20,9 @@ func parseLoadFile94(reader io.Reader, coresize Address) (WarriorData, error) {
 	lineNum := 0
 	breader := bufio.NewReader(reader)
 	for {
-		// empty lines and last lines without newlines seem to be missed
-		// should something else be used? or are these not worth handling?
+		// a last line without a newline is returned together with io.EOF
 		raw_line, err := breader.ReadString('\n')
-		if err != nil {
+		if err != nil && len(raw_line) == 0 {
 			break
 		}
 		lineNum++
@@ -276,10 +275,9 @@ func parseLoadFile88(reader io.Reader, coresize Address) (WarriorData, error) {
 	lineNum := 0
 	breader := bufio.NewReader(reader)
 	for {
-		// empty lines and last lines without newlines seem to be missed
-		// should something else be used? or are these not worth handling?
+		// a last line without a newline is returned together with io.EOF
 		raw_line, err := breader.ReadString('\n')
-		if err != nil {
+		if err != nil && len(raw_line) == 0 {
 			break
 		}
 		lineNum++
